@@ -73,7 +73,7 @@ fn base_problem(k: usize) -> Prob {
             m: 4,
             p: Dense::from_rows(&[vec![4.0, 1.0], vec![1.0, 2.0]], 2),
             p_full: false,
-            q: vec![1.0, 1.0],
+            q: vec![40.0, -25.0],
             a: Dense::from_rows(&[vec![1.0, 0.0], vec![0.0, 1.0], vec![-1.0, 0.0], vec![0.0, -1.0]], 2),
             b: vec![1.0, 1.0, 1.0, 1.0],
             cones: vec![NN(2), NN(2)],
@@ -83,7 +83,7 @@ fn base_problem(k: usize) -> Prob {
             m: 5,
             p: Dense::from_rows(&[vec![2.0, 0.0, 1.0], vec![0.0, 1.0, 0.0], vec![1.0, 0.0, 3.0]], 3),
             p_full: true,
-            q: vec![-1.0, 0.5, 1.0],
+            q: vec![-30.0, 15.0, 60.0],
             a: Dense::from_rows(
                 &[vec![1.0, 1.0, 0.0], vec![0.0, -1.0, 1.0], vec![0.0, 0.0, -1.0], vec![1.0, 0.0, 0.0], vec![0.0, 1.0, 0.0]],
                 3,
@@ -595,4 +595,13 @@ pub fn spaces(tier: &str, _seed: u64) -> Vec<Box<dyn Space>> {
         v.push(Box::new(Hist { depth, base: 0, equil: true, presolve_active: true }));
     }
     v
+}
+
+#[allow(dead_code)]
+pub fn debug_scalings() {
+    for k in 0..4 {
+        let p = base_problem(k);
+        let s = p.build(SettingsSpec::default().build());
+        println!("base {} c={} d={:?} e={:?}", k, s.data.equilibration.c, s.data.equilibration.d, s.data.equilibration.e);
+    }
 }
